@@ -32,7 +32,7 @@ var c19Kinds = []string{
 	"action: $n beyond the rule's length", "action: $0", "success",
 }
 
-func (c19) kindCases() int { return len(c19Kinds) * len(c19Variants) * 3 }
+func (c19) kindCases() int { return len(c19Kinds) * len(c19Variants) * 5 }
 func (p c19) prefixCases(tier string) int {
 	if tier == "thorough" {
 		return 400
@@ -41,7 +41,7 @@ func (p c19) prefixCases(tier string) int {
 }
 func (p c19) NumCases(tier string) int { return p.kindCases() + p.prefixCases(tier) }
 func (c19) Rule() string {
-	return "case = (failure kind, option set, one of 3 base specifications) with 14 input-caused failure kinds (bad character, unterminated comment / action / %union / %{, bad character literal, missing %%, junk between rules, %prec without symbol, undefined symbol, %type'd nonterminal without rule, unproductive nonterminal, $n beyond the rule's length, $0) plus a success kind, x {go, go -o, go -u, typescript}; the real CLI is run in its own process with the output path pre-existing (4 KB sentinel, fixed old mtime); when yaccgo reports failure (non-zero exit or panic) the file must have the same bytes, inode and mtime, and under strace -f no write-mode open, truncate, rename or unlink may name that path; when it reports success the file must contain a case label per rule and end with exactly the epilogue; prefix cases: 25 prefixes each of rendered specifications (most are failures, some are complete files) judged by the same rule; non-trivial = run in which yaccgo reported failure with the sentinel in place; distinct by (input text, option set)"
+	return "case = (failure kind, option set, one of 3 base specifications, and base 0 twice more as a grammar file of 70-180 KiB: once with comment lines before the first %% and in the epilogue, once with a long epilogue only) with 14 input-caused failure kinds (bad character, unterminated comment / action / %union / %{, bad character literal, missing %%, junk between rules, %prec without symbol, undefined symbol, %type'd nonterminal without rule, unproductive nonterminal, $n beyond the rule's length, $0) plus a success kind, x {go, go -o, go -u, typescript}; the real CLI is run in its own process with the output path pre-existing (4 KB sentinel, fixed old mtime); when yaccgo reports failure (non-zero exit or panic) the file must have the same bytes, inode and mtime, and under strace -f no write-mode open, truncate, rename or unlink may name that path; when it reports success the file must contain a case label per rule and end with exactly the epilogue; prefix cases: 25 prefixes each of rendered specifications (most are failures, some are complete files) judged by the same rule; non-trivial = run in which yaccgo reported failure with the sentinel in place; distinct by (input text, option set)"
 }
 func (c19) Assumptions() []string {
 	return []string{"output I/O failures (ENOSPC etc.) are outside the property's quantifier", "strace leg is skipped (and said so in the counters) if strace is unavailable"}
@@ -254,8 +254,25 @@ func (p c19) Run(seed int64, tier string, idx int) Outcome {
 		ki := idx % len(c19Kinds)
 		vi := (idx / len(c19Kinds)) % len(c19Variants)
 		bi := idx / (len(c19Kinds) * len(c19Variants))
-		g := c19Base(bi)
+		g := c19Base(bi % 3)
 		text := render.Render(g, c19Parts, render.Options{})
+		epilogue := c19Parts.Epilogue
+		if bi >= 3 {
+			// a grammar file beyond 64 KiB / 128 KiB: comment lines before the first %% (so that the rules,
+			// and with them most failure points, lie behind them) and at the start of the epilogue
+			var fill strings.Builder
+			for n := 0; fill.Len() < 70000+ki*5000; n++ {
+				fmt.Fprintf(&fill, "/* filler line %06d of a large grammar file .......................... */\n", n)
+			}
+			efill := strings.ReplaceAll(fill.String(), "/*", "//")
+			if bi == 3 {
+				text = strings.Replace(text, "\n%%\n", "\n"+fill.String()+"%%\n", 1)
+				efill = efill[:40000-40000%76]
+			}
+			text = strings.TrimSuffix(text, epilogue)
+			epilogue = "\n" + efill + epilogue
+			text += epilogue
+		}
 		kind := c19Kinds[ki]
 		broken := breakText(kind, g, text)
 		if kind != "success" && broken == text {
@@ -263,7 +280,7 @@ func (p c19) Run(seed int64, tier string, idx int) Outcome {
 			o.Detail = "failure kind could not be applied: " + kind
 			return o
 		}
-		judge(kind, broken, c19Variants[vi], kind != "success", c19Parts.Epilogue, btoi(kind == "success")*len(g.Rules))
+		judge(kind, broken, c19Variants[vi], kind != "success", epilogue, btoi(kind == "success")*len(g.Rules))
 		o.Hash = hashOf(broken, fmt.Sprint(c19Variants[vi]))
 		if idx < 2 {
 			o.Sample = map[string]interface{}{"kind": kind, "options": c19Variants[vi], "input_tail": trunc(broken[max(0, len(broken)-300):], 300)}
